@@ -37,8 +37,9 @@ def m_cap(tier):
                 MaxCap=6 if tier == "quick" else 9, MaxExt=0, srcs=["typed", "raw"], sinks=["drop"], OneHandle=True, timeout=6000)
 def m_fixed(tier):
     # fixed capacity 3 (Stack<3*size>, StackN<3,..>): operations whose result length is <= cap, == cap and == cap+1
-    return dict(cfg="CfgFixed3", alpha=["push", "insert", "pop", "remove", "swap_remove", "clear", "drain", "splice", "ext_drop", "forget"],
-                MaxLen=3, MaxLenB=3, MaxExt=1, MaxRepl=2, OneHandle=True, forms=["x..y"], srcs=["wrapper", "raw", "typed"], timeout=6000)
+    return dict(cfg="CfgFixed3", alpha=["push", "insert", "pop", "remove", "clear", "drain", "splice", "ext_drop"] + ([] if tier == "quick" else ["swap_remove", "forget"]),
+                MaxLen=3, MaxLenB=3, MaxExt=1, MaxRepl=2, OneHandle=True, forms=["x..y"],
+                srcs=["wrapper", "raw"] if tier == "quick" else ["wrapper", "raw", "typed"], timeout=6000)
 def m_fixed2(tier):
     return dict(m_fixed(tier), cfg="CfgFixed2", MaxLen=2, MaxLenB=2)
 
@@ -123,10 +124,12 @@ def c10(tier):
     return [dict(model="cap", configs=cfgs(["heap8d", "heap0d", "heap0n", "heap3n", "heap160", "fence8d", "fence3n", "fence0d", "fence160"], (R, D)))]
 def c11(tier):
     if tier == "quick":
-        return [dict(model="fixed", configs=cfgs(["stack24x3", "stackn3"], (R,))), dict(model="elem", configs=cfgs(["stack24x3"], (R,)))]
+        return [dict(model="fixed", configs=cfgs(["stack8x3p", "stackn3"], (R,))), dict(model="elem", configs=cfgs(["stack24x3"], (R,))),
+                dict(model="clonefixed", configs=cfgs(["stack8c"], (R,)))]
     return [dict(model="fixed", configs=cfgs(["stack24x3", "stackn3", "stack8x3m", "stack8x3p"], (R, D))),
             dict(model="fixed2", configs=cfgs(["stack8x2p", "stackn2"], (R, D))),
-            dict(model="elem", configs=cfgs(["stack24x3", "stackn3"], (R, D))), dict(model="range", configs=cfgs(["stack24x3"], (R,)))]
+            dict(model="elem", configs=cfgs(["stack24x3", "stackn3"], (R, D))), dict(model="range", configs=cfgs(["stack24x3"], (R,))),
+            dict(model="clonefixed", configs=cfgs(["stack8c", "stackn3"], (R, D)))]
 def c05(tier):
     if tier == "quick":
         return [dict(model="elem", configs=cfgs(["fence8d", "fence3n"], (R,))), dict(model="range", configs=cfgs(["fence8d"], (R,))),
